@@ -10,12 +10,11 @@ from vlib import core
 from checks import c18_translate
 
 META = {
-    "claimed": False,
     "harness_bins": ["c18"],
     "extract": "C18.v",
-    "technique": "Coq proof (partial): protocol models of the manual reference counting, the thunk wrapper and the marker-tagged byte stack, proved safe for every history; tied to the Rust code by differential replay of value-level histories (exact reference counts through hook H7), generated stack tables, an unsafe-site ledger, and sanitizer runs used only as search",
-    "level_text": "",
-    "level_note": "",
+    "technique": "Coq proof (partial, protocols only): executable models of the manual reference counting / copy-on-write / move-out lenses / Thunk wrapper (coq/Mem/Rc.v) and of the marker-tagged byte stack (coq/Mem/Stack.v, pairings generated from stack.rs) are proved safe for every history; tied to the Rust code by differential replay with exact reference counts (hook H7), a plain-Rust shadow oracle, generated stack tables, an unsafe-site ledger, whole programs under debug assertions; Miri / AddressSanitizer only as a search",
+    "level_text": "PARTIAL: a Coq proof cannot speak about the hardware; proved are the protocols whose violation IS the memory error. (1) C18_rc_protocol_safe / C18_rc_history_preserves / C18_rc_step_preserves: for EVERY history of the 30 modelled value-level operations (constructors of every block kind, clone, drop, content_make_mut / content_mut + mutation incl. the Rc::make_mut of an array's vector leaf, strong_clone, with_pos_idx, lens take (with_content: unique -> payload moved out and block released without destructor, shared -> clone) / restore, Thunk <-> NickelValue conversions, thunk get_owned / mk_update_frame / update / reset / lock / unlock / revert / build_cached / into_closure / saturate / map) no error state is reachable (use after free, double free, count underflow, clone of a dead block, &mut while shared, unchecked thunk decode of a non-thunk) and the invariant holds: count(b) = number of live handles to b (roots + payloads of live blocks, including the std Rc boxes between value blocks), freed blocks have no handle; panicking paths (expect/assert) leave the invariant intact. (2) C18_unique_access_only_when_count_1: a write through &mut happens only on a block whose count is 1. (3) C18_thunk_tag_inv: after any history every Thunk-typed handle points to a live block tagged Thunk, so the unchecked decode of Thunk::data is safe. (4) C18_stack_typed / C18_unwind_typed / C18_stack_tables_consistent: with frames_well_tagged, every pop_unchecked / read_unchecked of stack.rs (pop<T>, drop_top, unwind, pop_arg, pop_arg_as_idx, peek_sealed_cont, the marker iterator) materialises the top item at the type it was pushed at; unwind pops each item at its own type and ends empty; the marker/type pairings are GENERATED from stack.rs on every run. (5) C18_sites_all_covered: every unsafe block / fn and unchecked pop/read of stack.rs, lazy.rs, value/mod.rs, value/lens.rs is known to the ledger (new or moved site = open obligation). The models are hand-written; the tie is the correspondence run: the same generated histories on the extracted model and on nickel-lang-core (debug build), comparing after every step the contents and the EXACT reference count of every block reachable from every live handle, plus a plain-Rust shadow copy (value semantics) inside the harness; stack scripts against the real Stack through the replay hook; seeded programs (completing, failing, budget-exhausted = abandoned mid-evaluation) must not panic / abort.",
+    "level_note": "NOT proved, only sampled (debug assertions always; Miri on tiny histories and an AddressSanitizer build in the thorough tier — a report is a violation, silence is not a claim): memory layout and pointer arithmetic of value blocks, tag bit patterns and transmutes (u8 -> Marker / DataTag, NickelValue <-> Thunk repr(transparent)), pointer provenance, the allocator (addresses are never reused in the model), the pairing DataTag -> Rust type of the checked decodes (content_ref, content, as_value_data: ledger class ByTagTest), and the way the evaluator itself sequences these APIs (covered by whole programs, not by a model of the evaluator). Model restrictions: arrays of fewer than 32 elements (single-leaf vectors), environments of revertible thunks empty (no environment layering), saturate with no field, record/metadata payloads without values. Overflow of the 56-bit count stops a run (C18_overflow_needs_max_handles: needs 2^56-1 simultaneous handles; set_ref_count writes a corrupted header before panicking there: theoretical). Trusted: Coq kernel; extraction (ExtrOcamlBasic, ExtrOcamlNativeString); hook H7 (add-only: verif_ref_count, stack_replay); the syntactic translator checks/c18_translate.py (fails closed); harness c18 and the generators; std::rc::Rc, RefCell, HashMap, IndexMap, imbl-sized-chunks.",
 }
 
 HOOK_FILE = os.path.join(core.REPO, "core/src/eval/value/mod.rs")
@@ -334,7 +333,12 @@ def run_hist(ck, cases, hook):
     exe_impl = core.harness_bin("c18")
     rc1, impl_out, e1 = core.run_sharded(exe_impl, ["hist"], cases)
     rc2, model_out, e2 = core.run_sharded(ck.model_exe, [] if hook else ["nohook"], cases)
-    if rc1 or rc2:
+    if rc1:
+        hit = find_crasher(exe_impl, ["hist"], cases)
+        if hit:
+            ck.violation("abort:hist", "the harness process died (abort / signal) while replaying a value-level history",
+                         {"case": hit[0], "stderr": hit[1]})
+    if (rc1 and not hit) or rc2:
         ck.obligation("correspondence-run", "internal", False, "rc=%s/%s %s %s" % (rc1, rc2, e1[-800:], e2[-800:]))
     compare_hist(ck, cases, impl_out, model_out, hook)
     return impl_out, model_out
@@ -387,7 +391,12 @@ def run_stack(ck, scripts):
     exe_impl = core.harness_bin("c18")
     rc1, impl_out, e1 = core.run_sharded(exe_impl, ["stack"], scripts)
     rc2, model_out, e2 = core.run_sharded(ck.model_exe, ["stack"], scripts)
-    if rc1 or rc2:
+    if rc1:
+        hit = find_crasher(exe_impl, ["stack"], scripts)
+        if hit:
+            ck.violation("abort:stack", "the harness process died (abort / signal) while replaying a script of stack operations",
+                         {"stack_script": hit[0], "stderr": hit[1]})
+    if (rc1 and not hit) or rc2:
         ck.obligation("stack-correspondence-run", "internal", False, "rc=%s/%s %s %s" % (rc1, rc2, e1[-800:], e2[-800:]))
     for sc, a, b in zip(scripts, impl_out, model_out):
         ck.case(key="stack:" + sc, nontrivial=(sc.count(".") >= 5))
@@ -463,8 +472,9 @@ def run_progs(ck, progs):
     rc, outs, err = core.run_sharded(exe_impl, ["prog"], progs, timeout=1500)
     if rc:
         # a crash of the harness process itself (abort / segfault) is the property failing
+        hit = find_crasher(exe_impl, ["prog"], progs)
         ck.violation("prog-abort", "the harness process died while evaluating a generated program (abort / signal)",
-                     {"stderr": err[-1500:], "programs": progs[:50]})
+                     {"program_line": hit[0] if hit else None, "stderr": (hit[1] if hit else err)[-1500:]})
     for p, o in zip(progs, outs):
         ck.case(key="prog:" + p, nontrivial=True)
         cls = o.split(" ")[1] if o.startswith("ERR ") else o.split(" ")[0]
@@ -562,3 +572,107 @@ def replay(ck, path):
         run_stack(ck, [obj["stack_script"]])
     if "program" in obj:
         run_progs(ck, ["%d\t%s" % (obj.get("fuel", 2000000), obj["program"])])
+    if obj.get("program_line"):
+        run_progs(ck, [obj["program_line"]])
+    if "cases" in obj:
+        run_hist(ck, obj["cases"], hook)
+
+
+# --------------------------------------------------------------------------- sanitizers (search only)
+
+SAN_DIR = os.path.join(core.BUILD, "c18")
+
+
+def find_crasher(exe, args, lines, env=None, timeout=300):
+    """Which single input kills the process / makes the tool report?  Returns (line, stderr) or None."""
+    for l in lines:
+        try:
+            p = subprocess.run([exe] + args, input=l + "\n", stdout=subprocess.PIPE, stderr=subprocess.PIPE,
+                               text=True, errors="replace", timeout=timeout, env=env)
+        except subprocess.TimeoutExpired:
+            return l, "timeout"
+        if p.returncode != 0:
+            return l, p.stderr[-3000:]
+    return None
+
+
+def miri_run(ck, lines, ignore_leaks, label):
+    """The harness under Miri on a handful of tiny histories.  A report is a violation (with the
+    input as replay); no report is NOT presented as the universal claim."""
+    inp = os.path.join(SAN_DIR, "miri-%s.in" % label)
+    os.makedirs(SAN_DIR, exist_ok=True)
+    open(inp, "w").write("\n".join(lines) + "\n")
+    flags = "-Zmiri-disable-isolation" + (" -Zmiri-ignore-leaks" if ignore_leaks else "")
+    env = dict(os.environ, CARGO_TARGET_DIR=os.path.join(SAN_DIR, "miri-target"), MIRIFLAGS=flags, CARGO_NET_OFFLINE="true")
+    feats = ["--features", "h7"] if have_hook() else []
+    t = time.time()
+    with core.Lock("c18-miri"):
+        try:
+            p = subprocess.run(["cargo", "+nightly", "miri", "run", "--offline", "--quiet", "--bin", "c18"] + feats + ["--", "hist"],
+                               cwd=core.HARNESS, stdin=open(inp), stdout=subprocess.PIPE, stderr=subprocess.PIPE,
+                               text=True, errors="replace", env=env, timeout=5400)
+            rc, out, err = p.returncode, p.stdout, p.stderr
+        except subprocess.TimeoutExpired:
+            rc, out, err = 124, "", "timeout"
+    return rc, out.split("\n"), err, round(time.time() - t, 1)
+
+
+def sanitizers(ck, rng, cases, progs):
+    san = {}
+    # ---- Miri: value-level API only (loading the stdlib under Miri is far too slow)
+    rcv, outv = core.sh(["cargo", "+nightly", "miri", "--version"], cwd=core.HARNESS, timeout=120)
+    if rcv != 0:
+        san["miri"] = "not available: " + outv.strip()[-200:]
+    else:
+        small = corpus() + [gen_history(rng.fork(), 10) for _ in range(60)]
+        # the model says which histories leave unreachable cycles behind: leaks are checked on the others
+        rcm, model_out, _ = core.run_lines(ck.model_exe, [], small)
+        leaky = [c for c, o in zip(small, model_out) if not o.endswith("leak=0")]
+        clean = [c for c, o in zip(small, model_out) if o.endswith("leak=0")]
+        for label, lines, ign in (("clean", clean, False), ("cyclic", leaky, True)):
+            if not lines:
+                continue
+            rc, out, err, secs = miri_run(ck, lines, ign, label)
+            san["miri_" + label] = {"histories": len(lines), "rc": rc, "seconds": secs}
+            ub = "Undefined Behavior" in err or "memory leaked" in err or (rc not in (0,) and "error" in err)
+            if rc == 124:
+                san["miri_" + label]["note"] = "timed out: no verdict"
+            elif ub:
+                ck.violation("miri:" + label, "Miri reports undefined behaviour / a leak the model does not predict while replaying value-level histories",
+                             {"cases": lines, "miri_stderr": err[-3000:],
+                              "how_to_replay": "cd harness && MIRIFLAGS=-Zmiri-disable-isolation cargo +nightly miri run --bin c18 --features h7 -- hist < cases"})
+            else:
+                # the traces under Miri are the same as natively
+                exe_impl = core.harness_bin("c18")
+                _, nat, _ = core.run_lines(exe_impl, ["hist"], lines)
+                if [o for o in out if o] != [o for o in nat if o]:
+                    ck.obligation("miri-vs-native trace", "correspondence", False, "the harness prints different traces under Miri")
+    # ---- AddressSanitizer build: histories, stack scripts and whole programs
+    env = dict(os.environ, CARGO_TARGET_DIR=os.path.join(SAN_DIR, "asan-target"), RUSTFLAGS="-Zsanitizer=address",
+               CARGO_NET_OFFLINE="true")
+    feats = ["--features", "h7"] if have_hook() else []
+    t = time.time()
+    with core.Lock("c18-asan"):
+        rc, out = core.sh(["cargo", "+nightly", "build", "--offline", "--quiet", "--target", "x86_64-unknown-linux-gnu", "--bin", "c18"] + feats,
+                          cwd=core.HARNESS, env=env, timeout=5400)
+    san["asan_build_s"] = round(time.time() - t, 1)
+    if rc != 0:
+        san["asan"] = "build failed (no verdict): " + out[-400:]
+    else:
+        exe = os.path.join(SAN_DIR, "asan-target", "x86_64-unknown-linux-gnu", "debug", "c18")
+        aenv = {"ASAN_OPTIONS": "detect_leaks=0:abort_on_error=0"}
+        batches = [("hist", cases[:6000])]
+        if have_hook():
+            batches.append(("stack", [gen_script(rng.fork(), 40) for _ in range(3000)]))
+        batches.append(("prog", progs[:1500]))
+        for mode, lines in batches:
+            rc, outs, err = core.run_sharded(exe, [mode], lines, env=aenv, timeout=3000)
+            san["asan_" + mode] = {"inputs": len(lines), "rc": rc}
+            if rc != 0 or "AddressSanitizer" in err:
+                hit = find_crasher(exe, [mode], lines, env=dict(os.environ, **aenv))
+                ck.violation("asan:" + mode, "AddressSanitizer report / abnormal exit of the sanitized harness",
+                             {("case" if mode == "hist" else "stack_script" if mode == "stack" else "program_line"): hit[0] if hit else None,
+                              "stderr": (hit[1] if hit else err)[-3000:]})
+    ck.coverage["sanitizers"] = san
+    ck.coverage["sanitizers_note"] = ("Miri and AddressSanitizer runs are a search for counterexamples on the real code "
+                                      "(layout, transmute, provenance, allocator are only covered this way); the absence of a report is not a proof")
